@@ -101,7 +101,7 @@ func checkImageFresh(c *core.Ctx, rule string) {
 			if cal == nil {
 				return "the result of a dynamic call " + an.Render(v)
 			}
-			if cal.Pkg != nil && cal.Pkg.Pkg.Path() == "bytes" && (cal.Name() == "Join" || cal.Name() == "Repeat" || cal.Name() == "Clone") {
+			if cal.Pkg != nil && cal.Pkg.Pkg.Path() == "bytes" && (an.NameOf(cal) == "Join" || an.NameOf(cal) == "Repeat" || an.NameOf(cal) == "Clone") {
 				return ""
 			}
 			if cal.Pkg != nil && strings.HasPrefix(cal.Pkg.Pkg.Path(), modulePrefix) && len(cal.Blocks) > 0 {
@@ -144,7 +144,7 @@ func checkImageFresh(c *core.Ctx, rule string) {
 				}
 				st, v = prev, prev.Val
 			}
-			c.Check(why == "", rule, fn.Name(), "the wire image is built in fresh memory", in.Pos(), "nil/make/Join/literal-based", "the image buffer is "+why+": bytes already handed to the outgoing queue (or to a retransmission) are overwritten when the message is prepared again")
+			c.Check(why == "", rule, an.NameOf(fn), "the wire image is built in fresh memory", in.Pos(), "nil/make/Join/literal-based", "the image buffer is "+why+": bytes already handed to the outgoing queue (or to a retransmission) are overwritten when the message is prepared again")
 		})
 	}
 	c.Check(n > 0, rule, "Message.prepared", "stores found", token.NoPos, fmt.Sprint(n), "no store to Message.prepared found")
@@ -298,11 +298,11 @@ func runC05(c *core.Ctx, o Options) {
 			switch {
 			case an.TypeIs(cc.Value.Type(), "session", "CounterStorage") && name == "GetNextSeqNum":
 				nNum++
-				c.Check(fn == send, "K2", fn.Name(), "takes a sequence number", in.Pos(), "the numbering function", "a second numbering site outside Session.send: numbers taken here are not ordered with the enqueue under Session.mu")
+				c.Check(fn == send, "K2", an.NameOf(fn), "takes a sequence number", in.Pos(), "the numbering function", "a second numbering site outside Session.send: numbers taken here are not ordered with the enqueue under Session.mu")
 			case an.TypeIs(cc.Value.Type(), "session", "Handler") && name == "Send":
-				c.Check(fn == send, "K2", fn.Name(), "calls Router.Send", in.Pos(), "the numbering function", "Router.Send is called outside Session.send: the message bypasses numbering and stamping")
+				c.Check(fn == send, "K2", an.NameOf(fn), "calls Router.Send", in.Pos(), "the numbering function", "Router.Send is called outside Session.send: the message bypasses numbering and stamping")
 			case an.TypeIs(cc.Value.Type(), "session", "Handler") && name == "SendRaw":
-				c.Ob("K2", fn.Name(), "calls Router.SendRaw", in.Pos()).Fail("raw bytes are enqueued by the session, bypassing numbering")
+				c.Ob("K2", an.NameOf(fn), "calls Router.SendRaw", in.Pos()).Fail("raw bytes are enqueued by the session, bypassing numbering")
 			case an.TypeIs(cc.Value.Type(), "session", "Handler") && name == "SendBatch":
 				isResend := false
 				for _, r := range s.handlers(true, "ResendRequest", "") {
@@ -310,12 +310,12 @@ func runC05(c *core.Ctx, o Options) {
 						isResend = true
 					}
 				}
-				c.Check(isResend, "K2", fn.Name(), "calls Router.SendBatch", in.Pos(), "retransmission in the ResendRequest handler (keeps the original numbers)", "SendBatch is used outside the ResendRequest handler")
+				c.Check(isResend, "K2", an.NameOf(fn), "calls Router.SendBatch", in.Pos(), "retransmission in the ResendRequest handler (keeps the original numbers)", "SendBatch is used outside the ResendRequest handler")
 			case an.TypeIs(cc.Value.Type(), "session", "CounterStorage") && name == "ResetSeqNum":
-				c.Ob("K4", fn.Name(), "resets a counter", in.Pos()).Fail("the session resets a sequence counter: a reused store would not continue its numbering")
+				c.Ob("K4", an.NameOf(fn), "resets a counter", in.Pos()).Fail("the session resets a sequence counter: a reused store would not continue its numbering")
 			case an.TypeIs(cc.Value.Type(), "session", "CounterStorage") && name == "SetSeqNum":
 				sd := storageSide(cc.Args[0])
-				c.Check(sd == "incoming", "K4", fn.Name(), "SetSeqNum side", in.Pos(), "only the incoming counter is ever set", "the session sets the "+sd+" counter")
+				c.Check(sd == "incoming", "K4", an.NameOf(fn), "SetSeqNum side", in.Pos(), "only the incoming counter is ever set", "the session sets the "+sd+" counter")
 			}
 		})
 	}
@@ -433,20 +433,20 @@ func runC05(c *core.Ctx, o Options) {
 					for _, st := range x.States {
 						if st.Dir == 1 {
 							if f, _ := an.LoadedField(st.Chan); f == outF {
-								producers = append(producers, fn.Name())
+								producers = append(producers, an.NameOf(fn))
 							}
 						}
 					}
 				case *ssa.Return:
 					for _, r := range x.Results {
 						if f, _ := an.LoadedField(an.Unwrap(r)); f == outF {
-							getters = append(getters, fn.Name())
+							getters = append(getters, an.NameOf(fn))
 						}
 					}
 				}
 				if ch != nil {
 					if f, _ := an.LoadedField(ch); f == outF {
-						producers = append(producers, fn.Name())
+						producers = append(producers, an.NameOf(fn))
 					}
 				}
 			})
@@ -462,7 +462,7 @@ func runC05(c *core.Ctx, o Options) {
 					for root.Parent() != nil {
 						root = root.Parent()
 					}
-					cons[root.Name()+"/"+fn.Name()]++
+					cons[an.NameOf(root)+"/"+an.NameOf(fn)]++
 				}
 			})
 		}
@@ -489,7 +489,7 @@ func runC05(c *core.Ctx, o Options) {
 			an.AllInstrs(fn, func(in ssa.Instruction) {
 				if call, ok := in.(*ssa.Call); ok && an.StaticCallee(&call.Call) == hsend {
 					ls := la.At[call]
-					c.Check(ls.Holds(hmu, "h", an.ModeW), "K8", fn.Name(), "h.send runs with DefaultHandler.mu held", call.Pos(), ls.String(), "lockset "+ls.String()+": handlers, serialization and enqueue of two messages can interleave")
+					c.Check(ls.Holds(hmu, "h", an.ModeW), "K8", an.NameOf(fn), "h.send runs with DefaultHandler.mu held", call.Pos(), ls.String(), "lockset "+ls.String()+": handlers, serialization and enqueue of two messages can interleave")
 				}
 			})
 		}
@@ -523,6 +523,6 @@ func checkSendChainNoSpawn(c *core.Ctx, s *sess, rule string) {
 			c.Anchor("send chain", false, "a function of the send chain is missing", token.NoPos)
 			continue
 		}
-		c.Check(!hasGo(fn), rule, fn.Name(), "no goroutine is spawned on the send chain", fn.Pos(), "no go statement", "a go statement on the path between the sender and the outbound queue lets a later message overtake an earlier one")
+		c.Check(!hasGo(fn), rule, an.NameOf(fn), "no goroutine is spawned on the send chain", fn.Pos(), "no go statement", "a go statement on the path between the sender and the outbound queue lets a later message overtake an earlier one")
 	}
 }
